@@ -84,7 +84,9 @@ func c07Specs(tier string, seed int) []c07Spec {
 	}
 	for _, lw := range lwSpecs(tier, seed, false) {
 		lw := lw
-		out = append(out, c07Spec{Long: &lw})
+		if !lwDefs()[lw.World].leachAbove { // (the property is quantified like C02: leaching depth at the profile bottom)
+			out = append(out, c07Spec{Long: &lw})
+		}
 	}
 	return out
 }
